@@ -465,6 +465,93 @@ def check_stack_time_units(ctx, rule='R-TIMEUNITS'):
     ctx.count('stack overrides that rebuild a time coordinate', n)
 
 
+def check_stack_signature(ctx, rule='R-STACKSIG'):
+    """sibling agreement of the stack methods: the helpers of the package call `file1.stack(files[1:], stackdim=...)` on whatever class
+    the reader returned, so every override has to accept the keywords those callers use; and an override must define the locals it
+    reads on every path (one that rebuilds the time axis only for the time dimension must not touch it for another dimension)."""
+    import builtins
+    from .. import paths as _paths
+    ctx.rule(rule, 'stack overrides: every keyword the package passes to .stack() is a parameter of every override, and no local is read on a path that never binds it')
+    kws = {}
+    for m in ctx.src.all_modules():
+        for c in ast.walk(m.tree):
+            if isinstance(c, ast.Call) and isinstance(c.func, ast.Attribute) and c.func.attr == 'stack' and not (isinstance(c.func.value, ast.Name) and c.func.value.id in ('np', 'numpy', 'ma')) \
+                    and not (dotted(c.func) or '').startswith(('np.', 'numpy.')):
+                for k in c.keywords:
+                    if k.arg:
+                        kws.setdefault(k.arg, '%s:%d' % (m.relpath, c.lineno))
+    n = 0
+    for m in ctx.src.all_modules():
+        for q, fn in sorted(m.functions.items()):
+            if q.split('.')[-1] != 'stack' or '<locals>' in q or '.' not in q:
+                continue
+            n += 1
+            where = 'src/PseudoNetCDF/%s %s' % (m.relpath, q)
+            params = [a.arg for a in fn.args.args + fn.args.kwonlyargs]
+            missing = [k for k in sorted(kws) if k not in params and fn.args.kwarg is None]
+            if missing:
+                ctx.violation(Finding(rule, m.relpath, q, 'def stack(%s)' % ', '.join(params), 'the package calls .stack(..., %s=...) (%s) on files of any reader class, but this override has no parameter of that '
+                                      'name: stacking files of this class through pncmfopen / open_mfdataset raises TypeError' % (missing[0], kws[missing[0]]), lineno=fn.lineno), oid=q + ':kw')
+            else:
+                ctx.ok(rule, q + ':kw', where, 'accepts %s' % ', '.join(sorted(kws)) if kws else 'no keyword callers')
+            # locals bound on every path before they are read
+            stored = set()
+            for x in ast.walk(fn):
+                if isinstance(x, ast.Name) and isinstance(x.ctx, ast.Store):
+                    stored.add(x.id)
+                elif isinstance(x, (ast.Import, ast.ImportFrom)):
+                    for a in x.names:
+                        stored.add((a.asname or a.name).split('.')[0])
+            stored -= set(params)
+            bad = None
+            for pth in _paths.enumerate_paths(fn.body):
+                # skip paths that decide one test both ways
+                seen, contradictory = {}, False
+                for e, pol in pth.conds:
+                    t = norm(e)
+                    if t in seen and seen[t] != pol:
+                        contradictory = True
+                    seen[t] = pol
+                if contradictory:
+                    continue
+                bound = set()
+                for kind, *rest in pth.items:
+                    node = rest[0]
+                    reads = []
+                    if kind == 'cond':
+                        reads = [x for x in ast.walk(node) if isinstance(x, ast.Name) and isinstance(x.ctx, ast.Load)]
+                        newly = set()
+                    else:
+                        newly = set(x.id for x in ast.walk(node) if isinstance(x, ast.Name) and isinstance(x.ctx, ast.Store))
+                        for x in ast.walk(node):
+                            if isinstance(x, (ast.Import, ast.ImportFrom)):
+                                newly.update((a.asname or a.name).split('.')[0] for a in x.names)
+                        if isinstance(node, (ast.For, ast.While, ast.Try, ast.With)):
+                            reads = []          # opaque element: its own reads are not ordered here
+                        elif isinstance(node, ast.AugAssign):
+                            reads = [x for x in ast.walk(node) if isinstance(x, ast.Name)]
+                        else:
+                            comp_targets = set(t.id for c_ in ast.walk(node) if isinstance(c_, ast.comprehension) for t in ast.walk(c_.target) if isinstance(t, ast.Name))
+                            reads = [x for x in ast.walk(node) if isinstance(x, ast.Name) and isinstance(x.ctx, ast.Load) and x.id not in comp_targets]
+                    for x in reads:
+                        if x.id in stored and x.id not in bound and not hasattr(builtins, x.id):
+                            bad = (x, node, pth)
+                            break
+                    if bad:
+                        break
+                    bound |= newly
+                if bad:
+                    break
+            if bad:
+                x, node, pth = bad
+                how = ', '.join('%s is %s' % (norm(e)[:40], 'true' if pol else 'false') for e, pol in pth.conds[-2:]) or 'the straight path'
+                ctx.violation(Finding(rule, m.relpath, q, api.stmt_of(x) if not isinstance(node, ast.expr) else norm(node), 'the local %s is read on a path that never binds it (%s): stacking along such a '
+                                      'dimension raises UnboundLocalError instead of returning the concatenation' % (x.id, how), lineno=x.lineno), oid=q + ':def')
+            else:
+                ctx.ok(rule, q + ':def', where, 'every local is bound before it is read on every path')
+    ctx.floor('stack methods examined for their signature', n, 2)
+
+
 def check_delegate(ctx, rp, q):
     fn = ctx.src.mod(rp).func(q)
     where = 'src/PseudoNetCDF/%s %s' % (rp, q)
@@ -573,6 +660,7 @@ def run(ctx):
     ctx.floor('default stack dimension searches', nsd, 1)
     check_stack_imports(ctx)
     check_stack_time_units(ctx)
+    check_stack_signature(ctx)
     # ---- R-PASSMASK: variables the string forms pass through keep their mask
     from .. import lints as _lp
     ctx.rule('R-PASSMASK', 'variables that an operation passes through unchanged keep their mask: the converter copy does not fill an in-memory masked target')
